@@ -233,7 +233,13 @@ inductive Sel128 (R : Type) where
   | panic
 
 def select128 (ctx : Ctx R) (a b gx gy : R) (seed : Nat) : Sel128 R :=
-  -- `seed as u32 + 1`
+  -- `seed as u32 + 1` (`seed` in `1..=curves`, a `usize`): the sum overflows `u32` only for
+  -- `seed % 2^32 = 2^32 - 1`. No `chk` parameter is needed: the checked profile panics on the overflow, the
+  -- release profile wraps to `0` and `element(0)` panics on `assert!(seed > 1)`: a panic in both profiles.
+  -- (Likewise `seed % 2^32 = 0` gives `element(1)`: the same assertion, modelled by `element`.) Not reachable
+  -- from the callers: the arms of `ecm128::ecm128` hard-wire `curves <= 256`, and `seed = 2^32 - 1` is only
+  -- reached after 2^32 - 2 earlier iterations of the loop.
+  if seed % 2 ^ 32 + 1 ≥ 2 ^ 32 then .panic else
   match (element ctx a b gx gy ((seed % 2 ^ 32) + 1)).bind (paramsPoint ctx a b gx gy) with
   | .ok g => .gen g
   | .err p => if p < ctx.n then .factor p else .skip
@@ -243,5 +249,50 @@ def select128 (ctx : Ctx R) (a b gx gy : R) (seed : Nat) : Sel128 R :=
 exactly two words), then the generator is taken over word by word (the same residues). -/
 def curve128From (c : CurveData R) (words : Nat) : Option (Pt R) :=
   if c.twisted && words == 2 then some c.g else none
+
+/-! ### the context of `ZmodN::new(n)` on canonical residues
+
+`Fin n` with the operations of the core library (`Fin.add`, `Fin.sub`, `Fin.mul`: reduced modulo `n`) is what the
+native driver computes with (Drv/Suyama.lean); it is the commutative ring `Z/n` (Mathlib's `Fin.instCommRing`,
+the same operations), and `finCtx n` satisfies `Ctx.Lawful` (Lemmas/CurveBuildFin.lean `finCtx_lawful`), so
+the theorems of Props/C15Suyama.lean apply to the very functions the driver runs (`*Fin` below). -/
+
+/-- extended Euclid on integers: `(g, s)` with `s * a ≡ g (mod n)` -/
+def xgcdAux : Nat → Int → Int → Int → Int → Int × Int
+  | 0, r0, _, s0, _ => (r0, s0)
+  | f + 1, r0, r1, s0, s1 =>
+    if r1 = 0 then (r0, s0) else
+    let q := r0 / r1
+    xgcdAux f r1 (r0 - q * r1) s1 (s0 - q * s1)
+
+/-- `arith_gcd::inv_mod(a, n)` at its specification (C09): the inverse in `[0, n)` when `gcd = 1`.
+(The fuel `n + 1` is never exhausted: the remainder decreases; the loop stops at remainder 0.) -/
+def invNat (a n : Nat) : Option Nat :=
+  let r := xgcdAux (n + 1) (a % n) n 1 0
+  if r.1 = 1 then some (r.2 % n).toNat else none
+
+/-- `zn.from_int` on `Fin n` -/
+@[reducible] def finNatCast (n : Nat) [NeZero n] : NatCast (Fin n) := ⟨Fin.ofNat n⟩
+attribute [local instance] finNatCast
+
+/-- the context of `ZmodN::new(n)` on canonical residues `Fin n` -/
+def finCtx (n : Nat) [NeZero n] : Ctx (Fin n) where
+  n := n
+  inv := fun x => (invNat x.val n).map (Fin.ofNat n)
+  gcd := fun x => Nat.gcd n x.val
+  eq := fun x y => x.val == y.val
+  ofNat := fun k => Fin.ofNat n k
+
+section
+variable (n : Nat) [NeZero n]
+/-- `Suyama11::new(&ZmodN::new(n))` -/
+def suyamaNewFin (chk : Bool) : Res (Fin n × Fin n × Fin n × Fin n) := suyamaNew chk (finCtx n)
+/-- the Suyama-11 curve of a seed modulo `n` -/
+def suyamaCurveFin (a b gx gy : Fin n) (seed : Nat) : Res (CurveData (Fin n)) := suyamaCurve (finCtx n) a b gx gy seed
+/-- `Curve::from_point(ZmodN::new(n), x, y)` -/
+def fromPointFin (chk : Bool) (x y : Nat) : Res (CurveData (Fin n)) := fromPoint chk (finCtx n) x y
+/-- `do_curve(seed)` of `ecm::ecm(n, ..)` up to the call of `ecm_curve` -/
+def selectCurveFin (chk : Bool) (a b gx gy : Fin n) (seed : Nat) : Sel (Fin n) := selectCurve chk (finCtx n) a b gx gy seed
+end
 
 end Ymq.Suyama
